@@ -153,6 +153,23 @@ def gen_sched_case(rng, tier, kind=None, mode=None, static=False, many_to_one=No
         if case.get('phase2'):
             case['phase2'] = {'at': case['phase2']['at'] / c, 'rate': case['phase2']['rate'] * int(c)}
         case['fast_link'] = True
+    if not static and mode == 'GRID' and not case.get('fast_link') and not case.get('phase2') and rng.random() < 1 / 60:
+        # a long haul: thousands of packets in one busy period, offered a little (or a lot) faster than the line serves
+        # them, so that a backlog stands for the whole run (counters, accumulated virtual time, deep queues)
+        nlong = rng.choice([2600, 4200, 9300]) if kind != 'SP' else rng.choice([2600, 3400])
+        size = 1024
+        if rng.random() < 0.3:
+            case['rate'] = rate = 8      # a very slow line: simulated (and virtual) time runs into the millions
+        tx = size * 8.0 / rate * (10.5 / 11)     # mean transmission time (every eleventh packet is half size)
+        step = tx * rng.choice([31 / 32.0, 0.75, 0.5])
+        if nlong > 4200:
+            step = tx * 31 / 32.0          # the longest hauls with a shallow backlog (the checks scan the backlog)
+        case['workload'] = [[k * step, flows[(k * 7 + (k // 5)) % len(flows)], size if k % 11 else 512, 0, None, 0]
+                            for k in range(nlong)]
+        case.pop('shadow', None)
+        case.pop('monitor', None)
+        case.pop('late_cfg', None)
+        case['long_haul'] = True
     if kind == 'VC' and mode == 'GRID' and not case.get('fast_link') and rng.random() < 0.12:
         # a long-running simulation (clock at 2**40, resolution 2**-12) with vticks below that resolution: `now + vtick`
         # is `now`, stamps of one class coincide and only the arrival order separates them
@@ -283,7 +300,7 @@ def run_sched(case):
             state['k'] = k + 1
             return orig()
         mon.dist = hooked
-    w.run(max_steps=40000)
+    w.run(max_steps=400000 if case.get('long_haul') else 40000)
     if case.get('no_out'):
         try:
             w.rec('FIN', counters(s, None))
@@ -365,11 +382,28 @@ def parse(r):
 def waiting_at(H, s, k):
     """Packets that certainly waited when departure #k started service at s: arrived at a strictly earlier instant
     and not among the first k departures (nor packet k itself)."""
-    out = []
-    for a in H.arr:
-        if a['t'] < s and a.get('k', 1 << 60) > k:
-            out.append(a)
-    return out
+    # arrivals are recorded in time order; everything before the low-water mark has been served by departure k
+    # (queries come with rising k; a falling k restarts the scan)
+    import bisect
+    arr = H.arr
+    cache = H.__dict__.setdefault('_wa', {'k': -1, 'lo': 0, 'times': None})
+    if cache['times'] is None or len(cache['times']) != len(arr):
+        cache['times'] = [a['t'] for a in arr]
+        cache['k'], cache['lo'] = -1, 0
+        if any(cache['times'][i] > cache['times'][i + 1] for i in range(len(arr) - 1)):
+            cache['times'] = False
+    if cache['times'] is False:
+        return [a for a in arr if a['t'] < s and a.get('k', 1 << 60) > k]
+    if k < cache['k']:
+        cache['lo'] = 0
+    cache['k'] = k
+    lo = cache['lo']
+    n = len(arr)
+    while lo < n and arr[lo].get('k', 1 << 60) <= k:
+        lo += 1
+    cache['lo'] = lo
+    hi = bisect.bisect_left(cache['times'], s)
+    return [a for a in arr[lo:hi] if a.get('k', 1 << 60) > k]
 
 
 # ------------------------------------------------------------------------------------------- C12 clauses
@@ -412,15 +446,20 @@ def check_generic(H, case, pid):
     prev_dep = None
     idx = 0
     unserved = list(arr_sorted)
+    arrival_times = set(b['t'] for b in H.arr)
+    lo_ptr = 0
     for k, a in enumerate(H.deps):
-        amin = min((b['t'] for b in H.arr if b.get('k', 1 << 60) >= k), default=a['t'])
+        # earliest arrival among the packets not served before departure k (arr_sorted is in time order)
+        while lo_ptr < len(arr_sorted) and arr_sorted[lo_ptr].get('k', 1 << 60) < k:
+            lo_ptr += 1
+        amin = arr_sorted[lo_ptr]['t'] if lo_ptr < len(arr_sorted) else a['t']
         s = amin if prev_dep is None else max(prev_dep, amin)
         want = s + a['size'] * 8.0 / a['rate']
         if a['rate'] != rate:
             stats['rate_changed_while_idle'] = 1
         if prev_dep is not None and prev_dep >= amin:
             stats['back_to_back'] = 1
-        if prev_dep is not None and any(b['t'] == prev_dep for b in H.arr):
+        if prev_dep is not None and prev_dep in arrival_times:
             stats['arrival_exactly_at_transmission_end'] = 1
         if not close(a['out'][1], want, mode):
             viol.append((pid + '.1', 'departure #%d (%s, size %d) at %r; previous departure %r, earliest unserved arrival %r: '
@@ -531,9 +570,11 @@ def check_sp(H, case, pid):
                              (a['pkt'], a['cls'], prio.get(a['cls']), s, x['pkt'], x['cls'], prio.get(x['cls']), x['t'])))
                 return viol, stats
         # a more urgent arrival during a transmission
-        for x in H.arr:
-            if a['start'] < x['t'] < a['out'][1] and prio.get(x['cls'], 0) > prio.get(a['cls'], 0):
-                stats['urgent_arrival_during_lower_transmission'] = 1
+        if not stats.get('urgent_arrival_during_lower_transmission'):
+            for x in H.arr:
+                if a['start'] < x['t'] < a['out'][1] and prio.get(x['cls'], 0) > prio.get(a['cls'], 0):
+                    stats['urgent_arrival_during_lower_transmission'] = 1
+                    break
     return viol, stats
 
 
